@@ -507,7 +507,25 @@ func ruleCompletion(c *Ctx, pl *pipeline, rule string) {
 	for _, r := range returnsOf(fn) {
 		v, isC := constInt(r.Results[0])
 		if isC && v == 1 {
-			// test-only stop path: must be guarded by the stop message type
+			// test-only stop path: guarded by a comparison of the message type with a value that no
+			// frame can carry (outside the 12-bit domain 0..4095)
+			sentinel := false
+			for _, f := range dominatingFacts(r.Block()) {
+				bo, ok := f.Cond.(*ssa.BinOp)
+				if !ok || !((bo.Op == token.EQL && f.Val) || (bo.Op == token.NEQ && !f.Val)) {
+					continue
+				}
+				x, y := bo.X, bo.Y
+				if _, isK := constInt(x); isK {
+					x, y = y, x
+				}
+				k, isK := constInt(y)
+				if fv, _ := loadedField(x); isK && fv != nil && fv.Name() == "MessageType" && (k < 0 || k > 4095) {
+					sentinel = true
+				}
+			}
+			c.Check(sentinel, rule, "fanout:stop-sentinel", r.Pos(), "the stop path is taken only for a message type outside 0..4095 (no frame can carry it)",
+				"the fan-out stops for a message type that a real frame can carry: that frame and everything after it are never delivered")
 			continue
 		}
 		n++
